@@ -29,6 +29,7 @@ import (
 	"math/rand"
 	"net"
 	"net/http"
+	"net/http/httptest"
 	"net/url"
 	"os"
 	"path/filepath"
@@ -68,6 +69,10 @@ func main() {
 		},
 		Plan:  plan,
 		Child: child,
+		// only the batches of kind "race" are built with the race detector; what
+		// it reports there (reply assembly against a ban of a listed server) is
+		// a reply that need not be the server's data of any one instant
+		RaceIsViolation: true,
 		ClassifyDeath: func(c *ev.Check, o *run.Outcome) bool {
 			// test-mode servers and clients end their own process after 120 s of
 			// life: on a starved machine that is a watchdog, not a finding
@@ -79,7 +84,7 @@ func main() {
 		},
 		Post: func(c *ev.Check, outs []*run.Outcome) {
 			for _, k := range []string{"agree.raw", "agree.client", "agree.bits_set", "agree.banned_slots", "agree.servers_in_reply", "agree.migration_in_reply",
-				"refusal.raw", "refusal.client", "agree.burst", "agree.client_relayed", "rejected.large_list_tail", "rejected.twin_signature", "recovery.single_server", "recovery.three_servers", "stale_round.judged", "stale_round.unchanged", "rotation.injected_at.sync.ready", "rotation.injected_at.sync.afterCopy", "rotation.under_load", "rotation.reply_is_state_before", "rotation.reply_is_state_after", "tamper.bitflip", "tamper.truncate", "tamper.extend_adjusted", "tamper.resign_otherkey",
+				"refusal.raw", "refusal.client", "agree.burst", "agree.client_relayed", "rejected.large_list_tail", "race.cells", "rejected.twin_signature", "rejected.time_far_resigned", "recovery.single_server", "recovery.three_servers", "stale_round.judged", "stale_round.unchanged", "rotation.injected_at.sync.ready", "rotation.injected_at.sync.afterCopy", "rotation.under_load", "rotation.reply_is_state_before", "rotation.reply_is_state_after", "tamper.bitflip", "tamper.truncate", "tamper.extend_adjusted", "tamper.resign_otherkey",
 				"accepted.time_within", "rejected.time_outside", "rejected.devkey", "rejected.entry_sig", "rejected.mig_outer", "rejected.mig_inner",
 				"fullround.rejected_unchanged", "fullround.accepted", "states.offset_0", "states.offset_2016", "states.offset_4032"} {
 				c.Require(k, 1)
@@ -110,7 +115,110 @@ func plan(tier string, seed int64) []run.Batch {
 			}})
 		}
 	}
+	nRace := 1
+	if tier == "thorough" {
+		nRace = 3
+	}
+	for i := 0; i < nRace; i++ {
+		bs = append(bs, run.Batch{Kind: "race", Variant: "race", Seed: seed*100003 + 90000 + int64(i), N: 1, TimeoutS: 115})
+	}
 	return bs
+}
+
+// raceChild (built with -race): while a sync reply is being assembled, a ban
+// of a listed server is applied by another goroutine through the server's own
+// handler function, called in-process so that no socket sits between the two
+// accesses (the race runtime orders all socket and file I/O). The interfering
+// goroutine is started from the handler's instrumented point and only sleeps
+// before it acts; nothing waits for it inside the handler.
+func raceChild(b run.Batch, r *ev.Result) {
+	rng := rand.New(rand.NewSource(b.Seed))
+	drv.SetClock(0)
+	drv.GateRotation(true)
+	drv.GateImpact(true)
+	dw, err := drv.NewWorld(filepath.Join(b.Dir, "srv"), rng)
+	if err != nil {
+		r.Inconc("cannot start world: " + err.Error())
+		return
+	}
+	defer os.RemoveAll(dw.Dir)
+	defer dw.Close()
+	s := &st{World: dw, r: r, rng: rng, tstart: time.Now(), G2: refenc.GenKey(rng), batch: b, label: fmt.Sprintf("race seed=%d", b.Seed)}
+	if s.A, err = s.addDevice(10+uint32(rng.Intn(1000)), 1000000); err != nil {
+		r.Inconc(err.Error())
+		return
+	}
+	for i := 0; i < 12; i++ {
+		loc, hp := deadLocation(rng, 1+i%4)
+		a := refenc.AuthServer{Pub: refenc.GenKey(rng).Pub, Location: loc, HTTP: hp, TCP: uint16(rng.Intn(65536)), UDP: uint16(rng.Intn(65536))}.Signed(s.GCA.Priv)
+		if !s.postServer(a) {
+			return
+		}
+	}
+	var req [4]byte
+	binary.LittleEndian.PutUint32(req[:], s.A.ID)
+	cell := 0
+	for _, point := range []string{"sync.afterCopy", "sync.ready", "sync.afterCopy", "sync.ready", "sync.afterCopy", "sync.afterCopy"} {
+		for _, delay := range []time.Duration{0, 200 * time.Microsecond, 2 * time.Millisecond} {
+			if cell >= len(s.model) {
+				break
+			}
+			ban := s.model[cell]
+			ban.Banned = true
+			ban.UDP++
+			ban = ban.Signed(s.GCA.Priv)
+			body := ban.JSON()
+			done := make(chan int, 1)
+			var fired atomic.Bool
+			server.VerifSetHook(point, func(g *server.GCAServer) {
+				if !fired.CompareAndSwap(false, true) {
+					return
+				}
+				go func() {
+					time.Sleep(delay)
+					rq, _ := http.NewRequest("POST", "/api/v1/authorized-servers", bytes.NewReader(body))
+					rec := httptest.NewRecorder()
+					g.AuthorizedServersHandler(rec, rq)
+					if rec.Code != 200 {
+						r.Note("injected ban answered %d %.80s", rec.Code, rec.Body.String())
+					}
+					done <- rec.Code
+				}()
+			})
+			run.Op("race cell %d: sync with a ban injected at %s after %v", cell, point, delay)
+			raw, err := s.SyncRaw(req[:])
+			server.VerifSetHook(point, func(*server.GCAServer) {})
+			if !fired.Load() {
+				r.Count("race.hook_not_reached."+point, 1)
+				r.Inconc("instrumented point " + point + " was not reached by a sync request")
+				return
+			}
+			select {
+			case <-done:
+			case <-time.After(30 * time.Second):
+				r.Inconc("injected ban did not return")
+				return
+			}
+			r.Eval(1)
+			r.Nontrivial(fmt.Sprintf("%s/cell%d", s.label, cell))
+			r.Count("race.cells", 1)
+			for _, x := range s.S.VerifSnapshot(false).Servers {
+				if x.PublicKey == ban.Pub && x.Banned {
+					r.Count("race.ban_applied", 1)
+				}
+			}
+			// whatever the interleaving: every entry of a complete reply verifies under the GCA key
+			if err == nil && authentic(raw, s.Key.Pub) {
+				rep, _, _ := refenc.ParseSyncReply(raw)
+				for _, x := range rep.Servers {
+					if !refenc.Verify(s.GCA.Pub, x.SigningBytes(), x.Sig) {
+						r.Violationf("reply-serverlist-signature-invalid", s.replay(map[string]interface{}{"reply": hx(raw)}), "a reply assembled while a listed server was being banned carries an entry that is neither the old nor the new record (does not verify under the GCA key)")
+					}
+				}
+			}
+			cell++
+		}
+	}
 }
 
 // ---------------------------------------------------------------- parked clients
@@ -1382,6 +1490,25 @@ func (s *st) variants(genuine []byte, full bool) (vs []variant, sample []variant
 	}
 	add("valid.time_outside", 6, mustReject, rebuilt(s.Key.Priv, func(r *refenc.SyncReply) { r.Unix = 0 }))
 	add("valid.time_outside", 7, mustReject, rebuilt(s.Key.Priv, func(r *refenc.SyncReply) { r.Unix = ^uint64(0) }))
+	// far-away stamps, validly re-signed by the contacted server: the genuine
+	// stamp with one high bit flipped, and now +- 2^k seconds (2^32 s = 136 years)
+	for bit := 40; bit < 64; bit++ {
+		bit := bit
+		add("time.far_resigned", bit, mustReject, rebuilt(s.Key.Priv, func(r *refenc.SyncReply) { r.Unix ^= 1 << uint(bit) }))
+		if bit == 55 || bit == 63 {
+			pick("time")
+		}
+	}
+	for k := 32; k < 64; k++ {
+		k := k
+		add("time.far_resigned", 100+k, mustReject, rebuilt(s.Key.Priv, func(r *refenc.SyncReply) { r.Unix = uint64(time.Now().Unix()) + 1<<uint(k) }))
+		add("time.far_resigned", 200+k, mustReject, rebuilt(s.Key.Priv, func(r *refenc.SyncReply) { r.Unix = uint64(time.Now().Unix()) - 1<<uint(k) }))
+	}
+	for i, v := range []uint64{1 << 63, 1<<63 - 1, 1<<63 + 1, 1 << 55, 3 << 55, 1<<64 - 1<<55, 1 << 32} {
+		v := v
+		add("time.far_resigned", 300+i, mustReject, rebuilt(s.Key.Priv, func(r *refenc.SyncReply) { r.Unix = v }))
+		add("time.far_resigned", 400+i, mustReject, rebuilt(s.Key.Priv, func(r *refenc.SyncReply) { r.Unix = uint64(time.Now().Unix()) + v }))
+	}
 	add("valid.devkey_other_device", 0, mustReject, rebuilt(s.Key.Priv, func(r *refenc.SyncReply) { r.DevKey = s.B.Key.Pub }))
 	pick("devkey")
 	add("valid.devkey_other_device", 1, mustReject, rebuilt(s.Key.Priv, func(r *refenc.SyncReply) { r.DevKey = other.Pub }))
@@ -2089,6 +2216,10 @@ func (s *st) fullRounds(dir string, sample []variant, offset uint32) {
 // ---------------------------------------------------------------- child
 
 func child(b run.Batch, r *ev.Result) {
+	if b.Kind == "race" {
+		raceChild(b, r)
+		return
+	}
 	rng := rand.New(rand.NewSource(b.Seed))
 	var sidx, nsrv, nmig int
 	fmt.Sscan(b.P("state"), &sidx)
@@ -2278,6 +2409,8 @@ func child(b run.Batch, r *ev.Result) {
 			r.Count(counts[v.class], 1)
 		case len(v.class) > 15 && v.class[:15] == "resign_otherkey":
 			r.Count("tamper.resign_otherkey", 1)
+		case v.class == "time.far_resigned":
+			r.Count("rejected.time_far_resigned", 1)
 		case len(v.class) > 5 && v.class[:5] == "twin.":
 			r.Count("rejected.twin_signature", 1)
 		case v.class == "valid.large_list_tail_unsigned":
